@@ -12,6 +12,9 @@ POOL = ['1+2;', '"s";', 'nil;', '[1,"a"];', '%s 7;' % PRINT, '%s x = 5;' % VAR, 
         '"অা";', '%s = 5;' % LEN, '%s([1, 2, 3]);' % LEN, '%s = 5; x;' % LEN, '%s (;;) { 1/0; }' % FOR, '%s (;%s;) { nope; }' % (FOR, TRUE), '%s (%s) { %s; }' % (WHILE, TRUE, BREAK), '%s = nil; 1/0;' % ABS, '%s(-2);' % ABS]
 
 
+POOL += ['%s "start {";' % PRINT, '// {', '{', '%s (%s) { %s 1;' % (IF, TRUE, PRINT), '"{";', '/* { */ 1;', '%s f() {' % FUN, '[1, {a: 1}', '"}";', '%s "}{";' % PRINT]
+
+
 def split_responses(out):
     parts = out.split(b'>> ')
     return parts
